@@ -19,9 +19,10 @@ Theorem c06_translated_entry_point_set :
       [ep_self src (opt has_reply rfn) ovs g w]
       (CVal (VCon "quote"
          [VStr text;
-          VArr [ep_of bi "Instantiate"; ep_of be "Exec"; ep_of bq "Query"; ep_of bs "Sudo"];
-          (if negb bm && has_migrate then default_ep "Migrate" else quote_empty);
-          (if br then quote_empty else if has_reply then default_ep "Reply" else quote_empty)])).
+          VRec "holes"
+            [("entry_points", VArr [ep_of bi "Instantiate"; ep_of be "Exec"; ep_of bq "Query"; ep_of bs "Sudo"]);
+             ("migrate", if negb bm && has_migrate then default_ep "Migrate" else quote_empty);
+             ("reply_ep", if br then quote_empty else if has_reply then default_ep "Reply" else quote_empty)]])).
 Proof. exact translated_entry_points_emit. Qed.
 
 (* whether a kind is overridden is decided by the FIRST override attribute naming that kind, for any list of overrides *)
@@ -33,8 +34,9 @@ Proof. exact translated_get_entry_point. Qed.
 Example c06_translated_example :
   match call (EPG none none none (some (VStr "ov_sudo")) (some (VStr "ov_migrate")) none true) 3 200 "EntryPoints::emit"
              [ep_self (VStr "src") (some (VStr "on_reply")) (VArr []) VUnit VUnit] with
-  | Some (CVal (VCon "quote" (VStr _ :: parts))) =>
-      parts = [VArr [default_ep "Instantiate"; default_ep "Exec"; default_ep "Query"; quote_empty]; quote_empty; default_ep "Reply"]
+  | Some (CVal (VCon "quote" [VStr _; VRec "holes" parts])) =>
+      parts = [("entry_points", VArr [default_ep "Instantiate"; default_ep "Exec"; default_ep "Query"; quote_empty]);
+               ("migrate", quote_empty); ("reply_ep", default_ep "Reply")]
   | _ => False
   end /\
   call macro_fns 2 200 "get_entry_point"
